@@ -635,6 +635,34 @@ func (h *hEnv) execStep(step bson.D) (res bson.D, perr error) {
 			na = append(na, n)
 		}
 		return finish(bson.D{{Key: "err", Value: errClass(err)}, {Key: "names", Value: na}})
+	case "listCollsFull":
+		// the full listing (name, type, options, info, idIndex) through a cursor
+		flt := rec.argD(freshD(asD(getD(step, "filter"))))
+		if flt == nil {
+			flt = bson.D{}
+		}
+		cur, err := h.client.Database(asS(getD(step, "db"))).ListCollections(ctx, flt)
+		out := bson.D{{Key: "err", Value: errClass(err)}}
+		if err == nil {
+			var docs []bson.D
+			if e := cur.All(ctx, &docs); e != nil {
+				return finish(bson.D{{Key: "err", Value: errClass(e)}})
+			}
+			for _, d := range docs {
+				returned = append(returned, d)
+			}
+			out = append(out, bson.E{Key: "docs", Value: docsToA(docs)})
+		}
+		return finish(out)
+	case "listDBsFull":
+		r, err := h.client.ListDatabases(ctx, bson.D{})
+		na := bson.A{}
+		for _, d := range r.Databases {
+			if d.Name != "local" {
+				na = append(na, bson.D{{Key: "name", Value: d.Name}, {Key: "empty", Value: d.Empty}})
+			}
+		}
+		return finish(bson.D{{Key: "err", Value: errClass(err)}, {Key: "dbs", Value: na}})
 	case "listDBs":
 		names, err := h.client.ListDatabaseNames(ctx, bson.D{})
 		na := bson.A{}
